@@ -317,3 +317,47 @@ def expected_discovery(col, nrows, max_categories=20):
     if fam != 'real' and len(vals) > 1 and len(set(vals)) == len(vals):
         exp['no_duplicates'] = True
     return exp, unspec
+
+
+# ---------------------------------------------------------------------------
+# Record-level meaning (C06): which records violate a failing constraint
+# ---------------------------------------------------------------------------
+def row_flags(col, kind, value, opts):
+    """For a constraint that FAILED on this column: list with one entry per record -
+    False = the record violates it, True = it does not, None = null value (flagged false
+    only by the type and null-count rules).  Returns None when the record-level meaning is
+    not documented for this combination."""
+    precision = None
+    if isinstance(value, dict) and kind in ('min', 'max'):
+        precision = value.get('precision')
+        value = value.get('value')
+    fam = F.FAMILY[col['kind']]
+    vals = col['values']
+    eps = opts.get('epsilon')
+    n = len(vals)
+    if kind == 'type':
+        return [False] * n
+    if kind in ('min', 'max') and col['kind'] == 'float32' and isinstance(value, (int, float)) \
+            and not isinstance(value, bool) and abs(value) > 3.4e38:
+        return None     # bound outside the column's own number range: element-wise comparison is numpy's business
+    if kind == 'max_nulls':
+        return [v is not None for v in vals]
+    if kind == 'no_duplicates':
+        keyf = (lambda v: _num(v)) if fam in ('int', 'real', 'bool') else \
+            ((lambda v: parse_dt(v)) if fam == 'date' and col['kind'] != 'dateobj' else (lambda v: v))
+        cnt = {}
+        for v in vals:
+            if v is not None:
+                cnt[keyf(v)] = cnt.get(keyf(v), 0) + 1
+        return [True if v is None else cnt[keyf(v)] == 1 for v in vals]
+    out = []
+    for v in vals:
+        if v is None:
+            out.append(None)
+            continue
+        one = {'kind': col['kind'], 'values': [v]}
+        r = expected(one, kind, {'value': value, 'precision': precision} if precision else value, opts)
+        if r is None:
+            return None
+        out.append(r)
+    return out
